@@ -114,6 +114,7 @@ type Params struct {
 // Scenario is a genesis document plus all keys.
 type Scenario struct {
 	Seed     uint64
+	Profile  string
 	P        Params
 	Doc      *genesis.Document
 	Entities []*SimEntity
@@ -188,7 +189,7 @@ func NewScenario(seed uint64, profile string) *Scenario {
 		p.MaxValidators = 2 + rng.IntN(p.NumValidators)
 		p.EpochInterval = 6 + rng.Int64N(6)
 	}
-	s := &Scenario{Seed: seed, P: p}
+	s := &Scenario{Seed: seed, P: p, Profile: profile}
 
 	for i := 0; i < p.NumValidators+p.ExtraEntities; i++ {
 		e := &SimEntity{Account: newAccount(fmt.Sprintf("entity%d", i), signature.SignerEntity, rng), InGenesis: i < p.NumValidators}
@@ -332,6 +333,9 @@ func (s *Scenario) buildDoc(rng *rand.Rand) *genesis.Document {
 			MaxRuntimeDeployments: 5,
 		},
 	}
+	// Half of the election scenarios start with all entities at exactly the same stake, so the
+	// validator cut-off falls inside a tie (the tie-break must be the same on every replica).
+	allTied := s.Profile == "election" && rng.IntN(2) == 0
 	for i, e := range s.Entities {
 		gen := uint64(50_000 + rng.IntN(100_000))
 		acct := &staking.Account{General: staking.GeneralAccount{Balance: q(gen)}}
@@ -344,6 +348,9 @@ func (s *Scenario) buildDoc(rng *rand.Rand) *genesis.Document {
 			// Stakes of a few base units (below one unit of linear voting power) when no thresholds apply.
 			if i >= 2 && p.EntityThreshold == 0 && p.NodeThreshold == 0 && rng.IntN(3) == 0 {
 				esc = uint64(1 + rng.IntN(40))
+			}
+			if allTied {
+				esc = 10_000
 			}
 			acct.Escrow.Active.Balance = q(esc)
 			acct.Escrow.Active.TotalShares = q(esc)
